@@ -115,8 +115,12 @@ func NewTimeBucketInfo(tf utils.Timeframe, path, description string, year int16,
 
 // CheckStorable reports whether the data file header can hold this TimeBucketInfo faithfully.
 // Element names are stored in fixed elementNameHeaderBytes-byte slots and NUL-trimmed when the header
-// is read back, so a longer name (or one that starts or ends with a NUL byte) would come back changed.
+// is read back, so a longer name (or one that starts or ends with a NUL byte) would come back changed;
+// the header has room for maxNumElements elements.
 func (f *TimeBucketInfo) CheckStorable() error {
+	if n := len(f.GetElementNames()); n > maxNumElements {
+		return fmt.Errorf("%d columns, the header holds at most %d", n, maxNumElements)
+	}
 	for _, name := range f.GetElementNames() {
 		if len(name) > elementNameHeaderBytes {
 			return fmt.Errorf("column name %q is longer than %d bytes", name, elementNameHeaderBytes)
